@@ -64,7 +64,7 @@ def composeLen (p : Pfx) : Nat := bitsToBytes p.len
 /-- DESIGN section 9, F2: `parse_prefix_for_len` slices `b[..prefix_bytes]`
 without a bound check and panics for more than 4 / 16 octets.  Set this to
 `true` once that defect is repaired (the branch then returns `Err`). -/
-def f2Fixed : Bool := false
+def f2Fixed : Bool := true
 
 /-- shared tail of the prefix parsers: read `nb` octets, pad, `Prefix::new_v4/6` -/
 def parseBody (v6 : Bool) (bits : Nat) (bs : Bytes) : Outcome (Pfx × Bytes) :=
